@@ -193,7 +193,8 @@ def case_blocks(ctx, inp):
     from dask.bytes import read_bytes
     d, data, bs = inp["d"], inp["data"], inp["bs"]
     with U.files(inp.get("fs", "mem"), [data]) as paths:
-        _, out = read_bytes(paths[0], delimiter=_b(d) if d else None, blocksize=bs, sample=False)
+        arg = f"{bs}B" if (bs is not None and inp.get("strbs")) else bs      # the string form of the same size
+        _, out = read_bytes(paths[0], delimiter=_b(d) if d else None, blocksize=arg, sample=False)
         blocks = [list(b) for b in dask.compute(*out[0], scheduler="sync")]
     ctx.eq("read_bytes blocks", ctx.lean(Sym("fileblocks"), d, data, bs), _ok(blocks))
     flat = [x for b in blocks for x in b]
@@ -424,7 +425,8 @@ def generate(ctx):
         d = list(rng.choice(DELIMS)) if rng.random() < 0.92 else []
         data = gen_data(rng, d or b"\n")
         bs = rng.choice(gen_blocksizes(rng, len(data))) if rng.random() < 0.93 else None
-        yield "blocks", {"d": d, "data": data, "bs": bs, "fs": "tmp" if rng.random() < 0.2 else "mem"}
+        yield "blocks", {"d": d, "data": data, "bs": bs, "fs": "tmp" if rng.random() < 0.2 else "mem",
+                         "strbs": rng.random() < 0.3}
     # ---- read_text --------------------------------------------------------------------------------
     yield "readtext", {"data": [97, 124, 124, 98, 124, 124], "delim": [124, 124], "bss": [1, 2, 3]}
     yield "readtext", {"data": [], "delim": [10], "bss": [1, 2]}
